@@ -227,8 +227,8 @@ def ceemdLoopFanouts (σ : Nat → Schedule) (F Fn : Sig → Sig) (mode : Mode) 
 def ceemdFanouts (σ : Nat → Schedule) (F Fn : Sig → Sig) (mode : Mode) (scale : Rat) (M : List Sig) (x : Sig)
     (stages : Nat) : List (Sig × List (Sig × List Sig)) :=
   let noise0 := M.map (Sig.smul scale)
-  let imf0 := ceemdImf (σ 0) F mode (some scale) x noise0
-  (x, ceemdMembers (σ 0) F mode (some scale) x noise0) ::
+  let imf0 := ceemdImf (σ 0) F mode none x noise0
+  (x, ceemdMembers (σ 0) F mode none x noise0) ::
     ceemdLoopFanouts σ F Fn mode x stages 2 [imf0] (ceemdNoiseStep (σ 1) Fn noise0)
 
 /-- mean over the members of a recorded fan-out (what `ceemdImf` computes from them) -/
@@ -289,11 +289,11 @@ theorem length_ceemdFanouts (σ : Nat → Schedule) (F Fn : Sig → Sig) (mode :
     (stages : Nat) : (ceemdFanouts σ F Fn mode scale M x stages).length = stages + 1 := by
   simp [ceemdFanouts, length_ceemdLoopFanouts]
 
-/-- fan-out 0 of `ceemd`: residual `x`, matrix `scale • M`, and the scale passed once more -/
+/-- fan-out 0 of `ceemd`: residual `x`, matrix `scale • M`, no further scale -/
 theorem ceemdFanouts_zero (σ : Nat → Schedule) (F Fn : Sig → Sig) (mode : Mode) (scale : Rat) (M : List Sig) (x : Sig)
     (stages : Nat) :
     (ceemdFanouts σ F Fn mode scale M x stages)[0]? =
-      some (x, ceemdMembers (σ 0) F mode (some scale) x (stageNoise Fn scale M 0)) := rfl
+      some (x, ceemdMembers (σ 0) F mode none x (stageNoise Fn scale M 0)) := rfl
 
 /-- fan-out `k+1` of `ceemd`: some residual, matrix = stage-(k+1) noise, no scale -/
 theorem ceemdFanouts_succ (σ : Nat → Schedule) (p : Nat → Nat) (F Fn : Sig → Sig) (mode : Mode) (scale : Rat)
@@ -305,7 +305,7 @@ theorem ceemdFanouts_succ (σ : Nat → Schedule) (p : Nat → Nat) (F Fn : Sig 
   have hM : (M.map (Sig.smul scale)).length = M.length := by simp
   rw [List.getElem?_cons_succ, ceemdNoiseStep_eq (σ 1) (p 1) Fn _ (hM ▸ hσ 1)]
   obtain ⟨proto, h⟩ := ceemdLoopFanouts_get σ p F Fn mode x M.length hσ stages 2
-    [ceemdImf (σ 0) F mode (some scale) x (M.map (Sig.smul scale))]
+    [ceemdImf (σ 0) F mode none x (M.map (Sig.smul scale))]
     ((M.map (Sig.smul scale)).map (noiseResidual Fn)) (by simp) k hk
   refine ⟨proto, ?_⟩
   rw [h]
